@@ -280,6 +280,7 @@ func c20(r *core.Run) {
 
 	r.Rule("T1", "one transaction: every Set/SetEntry/Delete on a badger.Txn in the middleware is made on the parameter of a closure passed directly to DB.Update, and that closure also reads the resource key before writing it", 10)
 	r.Rule("T2", "a refused write fails the event: in every apply handler the error returned by the Set / SetEntry / Delete that writes the resource itself flows into the return value of the update closure (through phis and result cells, and through a helper's result when the write sits in a helper)", 10)
+	r.Rule("R2", "a create stores what it was given: the bytes the create handler writes under the resource key are json.Marshal of its value parameter itself - not of a converted copy (the value decoded into the handler's type for the index callbacks): a conversion drops members the type does not know, adds zero-valued ones and passes numbers through the type's representation, so get serves something else than the created data and later events fold over the wrong base", 2)
 	r.Rule("R1", "what an event does not touch is stored as it was: the change, add and remove handlers decode the stored model / collection into raw elements (map[string]json.RawMessage, []json.RawMessage) before they re-encode it - decoded into interface{} every other property or element goes through float64, and an integer beyond 2^53 (a 64-bit id, a nanosecond timestamp) comes back as a different number although no event touched it", 6)
 	r.Rule("T3", "nothing fails after the commit: once DB.Update has returned without error the handler's changes are in the database, so every return of an apply handler after it yields a nil error (the error of DB.Update itself, or an error made on its non-nil edge, aside): an error there makes the event method panic before it publishes anything, although storage has already changed", 10)
 	r.Rule("V1", "Value serves what get serves now (shared with C16.O1): Resource.Value builds a fresh get request on every call and stores nothing into the resource it was called on - a value remembered in the resource is the value from before the events applied since", 5)
@@ -321,6 +322,9 @@ func c20(r *core.Run) {
 				continue
 			}
 			c20NothingFailsAfterCommit(r, "T3", m, upd)
+			if name == "applyCreate" {
+				c20CreateStoresGivenValue(r, "R2", m)
+			}
 			if name == "applyChange" || name == "applyAdd" || name == "applyRemove" {
 				c20UntouchedJSONKept(r, "R1", cl)
 			}
@@ -1268,5 +1272,65 @@ func c20UntouchedJSONKept(r *core.Run, rule string, cl *ssa.Function) {
 	}
 	if n == 0 {
 		r.Unres(rule, core.FuncName(cl)+".<container-decode>", "no json.Unmarshal into a slice or map in the handler's transaction body")
+	}
+}
+
+// c20CreateStoresGivenValue is C20.R2.
+func c20CreateStoresGivenValue(r *core.Run, rule string, m *ssa.Function) {
+	p := r.P
+	var unit []*ssa.Function
+	seen := map[*ssa.Function]bool{}
+	work := []*ssa.Function{m}
+	for len(work) > 0 {
+		f := work[0]
+		work = work[1:]
+		if seen[f] {
+			continue
+		}
+		seen[f] = true
+		unit = append(unit, f)
+		work = append(work, f.AnonFuncs...)
+		work = append(work, p.Helpers(f)[1:]...)
+	}
+	var written []ssa.Value
+	var at []ssa.Instruction
+	for _, f := range unit {
+		for _, b := range f.Blocks {
+			for _, in := range b.Instrs {
+				switch x := in.(type) {
+				case *ssa.Call:
+					if strings.HasSuffix(core.CalleeName(x), "badger.Txn).Set") && len(x.Call.Args) == 3 {
+						if k, isC := x.Call.Args[2].(*ssa.Const); isC && k.IsNil() {
+							continue // an index entry
+						}
+						written = append(written, x.Call.Args[2])
+						at = append(at, x)
+					}
+				case *ssa.Store:
+					if f, ok := core.FieldOf(x.Addr); ok && f.Name == "Value" && strings.HasSuffix(f.Struct, "badger.Entry") {
+						written = append(written, x.Val)
+						at = append(at, x)
+					}
+				}
+			}
+		}
+	}
+	if len(written) == 0 {
+		r.Unres(rule, core.FuncName(m)+".<resource-write>", "no Txn.Set / Entry.Value write in the create handler")
+		return
+	}
+	for i, w := range written {
+		good, why := false, "the bytes written are not the result of json.Marshal"
+		if ex, ok := valueOrigin(p, w, 0).(*ssa.Extract); ok && ex.Index == 0 {
+			if mc, ok := ex.Tuple.(*ssa.Call); ok && core.CalleeName(mc) == "encoding/json.Marshal" {
+				o := valueOrigin(p, mc.Call.Args[0], 0)
+				if prm, ok := o.(*ssa.Parameter); ok && prm.Parent() == m {
+					good = true
+				} else {
+					why = "the value encoded is " + valDesc(o) + ", not the handler's value parameter as it was handed in (the variable is re-assigned or converted before it is encoded)"
+				}
+			}
+		}
+		r.Check(good, rule, core.FuncName(m), "stored-bytes<-json.Marshal(value-parameter)", p.InstrPos(at[i]), "the resource is stored as the encoding of the value handed in", "the create handler does not store the encoding of the value it was given: "+why+" - get serves something else than the created data, and later events fold over the wrong base")
 	}
 }
